@@ -232,6 +232,18 @@ func (cl *cluster) oracleElection(v controller.VerifView, s signal) {
 			cl.violate("election", "live-registration-dropped", fmt.Sprintf("start signalled to %s (revision %d) although node %d registered with revision %d, is reachable and was dropped from the controller's registrations; registered: %s", s.target, t.RevCount, node, rev, regStr(v)))
 		}
 	}
+	// ground truth for the revision counts as well: what each registered replica really holds (a registration that
+	// carries a wrong count must not win the election)
+	if tn := nodeOf("tcp://" + s.target + ":9502"); tn >= 0 {
+		if tTrue, ok := cl.regTruth[tn]; ok {
+			for a := range v.Registered {
+				n := nodeOf("tcp://" + a + ":9502")
+				if rev, ok := cl.regTruth[n]; ok && n != tn && rev > tTrue && truthState(a) != "rebuilding" && !cl.down[n] {
+					cl.violate("election", "elected-not-max-by-truth", fmt.Sprintf("start signalled to %s, which holds revision %d, although %s is registered, reachable, not rebuilding and holds revision %d; the controller recorded: %s", s.target, tTrue, a, rev, regStr(v)))
+				}
+			}
+		}
+	}
 	for a, r := range v.Registered {
 		n := nodeOf("tcp://" + a + ":9502")
 		if r.RevCount > t.RevCount && r.RepState != "rebuilding" && truthState(a) != "rebuilding" && n >= 0 && !cl.down[n] {
@@ -412,6 +424,9 @@ func (cl *cluster) key() string {
 		pa = append(pa, fmt.Sprintf("n%d:done=%v", i, t.done))
 	}
 	sort.Strings(pa)
+	if len(cl.boots) > 0 {
+		fmt.Fprintf(&b, "BOOT %s retries=%d\n", cl.bootDesc(), cl.nRetries)
+	}
 	fmt.Fprintf(&b, "B %v sticky=%v task=%s adds=%v xferfail=%v/%d fiemapfail=%v/%d\n", bl, cl.stickyREST, cl.taskDesc(), pa, cl.failXfer, cl.cnt["transfers_failed"], cl.failFiemap, cl.cnt["fiemap_failures_injected"])
 	var ack []string
 	for id := 1; id <= cl.nWrites; id++ {
@@ -645,6 +660,8 @@ func (cl *cluster) enabled() []string {
 					out = append(out, fmt.Sprintf("RB:%d", i))
 				}
 			}
+		case "Boot", "StepB":
+			out = append(out, cl.bootEnabled(t, attached)...)
 		case "Step":
 			if cl.task != nil && !cl.task.done {
 				out = append(out, "Step")
